@@ -666,7 +666,9 @@ def main(tier, seed):
     if tier == 'quick':
         scfgs = [c for c in scfgs if c[0] in ('chacha20-poly1305@openssh.com', 'aes128-gcm@openssh.com', 'aes128-ctr', 'aes256-cbc', '3des-cbc')]
     acc.merge(core.pmap(stream_worker, [(c, tier) for c in scfgs]))
-    acc.merge(core.pmap(finished_worker, finished_jobs(scfgs[:4] if tier == 'quick' else scfgs)))
+    # quick: four suites plus one CBC suite with a plain MAC (there a damaged length field can stall the receiver)
+    fq = scfgs[:4] + [c for c in scfgs[4:] if c[0].endswith('-cbc') and c[1] and 'etm' not in c[1]][:1]
+    acc.merge(core.pmap(finished_worker, finished_jobs(fq if tier == 'quick' else scfgs)))
     rule = ('every negotiable cipher x MAC (AEAD ciphers once) x compression triple, each direction; '
             'target packets: first encrypted packet, first and last data packet (thorough: every packet); '
             'faults: bit flips at the boundaries of every region (length field all 8 bits of one byte, '
